@@ -67,7 +67,7 @@ def run(tier, seed):
              'level': '_decay_dbd_level_', 'window': '_energy_max_'}
     guards = F.throw_guards()
     for what, member in wants.items():
-        g = [(b, arm) for b, arm in guards if cppflow.mentions(b.stmt[1], member)]
+        g = [(b, arm) for b, arm in guards if cppflow.mentions(F.resolve_flags(b.stmt[1]), member)]     # flags stand for their tests
         ok = bool(g) and bool(call) and all(call[0].id not in F.reach(b.succ[arm]) and call[0].id in F.reach(b.id)
                                             for b, arm in g[:1])
         rep.add('CONFIG.complete', what, where(ini, g[0][0].line if g else ini['l']),
